@@ -244,13 +244,25 @@ def _optional_scalar(o: Any, f: str) -> type | None:
 
 def boundary_values(o: Any, f: str, val: Any) -> list | None:
     """The boundary values to try for field f of o (current value val): by the run-time type of the value; a field
-    declared Optional[scalar] is also tried with None, and when it currently IS None with the scalar's values."""
+    declared Optional[scalar] is also tried with None, and when it currently IS None with the scalar's values; flag and
+    enum fields with every member (and none / all flags); Vec4 fields with three tuples."""
     t = type(val)
     if t in BOUNDARY:
         return BOUNDARY[t] + ([None] if _optional_scalar(o, f) is t else [])
     if val is None:
         t2 = _optional_scalar(o, f)
         return list(BOUNDARY[t2]) if t2 is not None else None
+    import enum
+    if isinstance(val, enum.Flag):        # DispFlag, TriangleTag: no flag, every single flag, all flags
+        members = list(t)
+        every = t(0)
+        for m in members:
+            every |= m
+        return [t(0)] + members + [every]
+    if isinstance(val, enum.Enum):
+        return list(t)
+    if t.__name__ == 'Vec4':              # multiblend tuples of a displacement vertex
+        return [t(0.0, 0.0, 0.0, 0.0), t(0.25, 0.5, 0.75, 1.0), t(1.0, 1.0, 1.0, 1.0)]
     return None
 
 
